@@ -264,7 +264,14 @@ class OneShot(PathAnalysis):
         if hit and op == "==":
             return (int_val(r), al)
         if hit and op == "!=" and int_val(r) in (0, 1):
-            return (1 - int_val(r), al)  # the flags in the table are booleans
+            new = 1 - int_val(r)  # the flags in the table are booleans
+            if known is not None and known != new:
+                return self.INFEASIBLE
+            if kind(l) == "var":
+                v = env.get(l[1])
+                if v is not None and v[0] == "ne" and v[1] == new:
+                    return self.INFEASIBLE
+            return (new, al)
         return user
 
     def on_exit(self, func, bid, retval, env, user):
